@@ -52,28 +52,34 @@ Proof.
   apply IH. destruct (cmem y acc); [exact H|apply in_or_app; left; exact H].
 Qed.
 
-Lemma expand_In g s x :
-  In x (expand g s) -> In x s \/ exists y, In y s /\ In x (parents g y).
+Lemma rev_pass_sound g rg : forall s x,
+  In x (rev_pass g rg s) -> exists y, In y s /\ anc g x y.
 Proof.
-  unfold expand. intros H. apply add_all_In in H. destruct H as [H|H]; [left; exact H|].
-  right. apply in_flat_map in H. exact H.
-Qed.
-
-Lemma iter_expand_sound g n : forall s x,
-  In x (iter_expand g n s) -> exists y, In y s /\ anc g x y.
-Proof.
-  induction n as [|n IH]; intros s x H; simpl in H.
+  induction rg as [|[c ps] rg IH]; intros s x H; simpl in H.
   - exists x. split; [exact H|apply anc_refl].
   - apply IH in H. destruct H as [y [Hy Hxy]].
-    apply expand_In in Hy. destruct Hy as [Hy|[z [Hz Hyz]]].
-    + exists y. split; assumption.
-    + exists z. split; [exact Hz|]. eapply anc_trans; [exact Hxy|]. apply anc_parent. exact Hyz.
+    destruct (cmem c s) eqn:Ec; [|exists y; split; assumption].
+    apply add_all_In in Hy. destruct Hy as [Hy|Hy]; [exists y; split; assumption|].
+    exists c. split; [apply cmem_In; exact Ec|].
+    eapply anc_trans; [exact Hxy|apply anc_parent; exact Hy].
+Qed.
+
+Lemma close_fuel_sound g rg fuel : forall s x,
+  In x (close_fuel g rg fuel s) -> exists y, In y s /\ anc g x y.
+Proof.
+  induction fuel as [|f IH]; intros s x H; simpl in H.
+  - exists x. split; [exact H|apply anc_refl].
+  - destruct (Nat.eqb _ _).
+    + exists x. split; [exact H|apply anc_refl].
+    + apply IH in H. destruct H as [y [Hy Hxy]].
+      apply rev_pass_sound in Hy. destruct Hy as [z [Hz Hyz]].
+      exists z. split; [exact Hz|eapply anc_trans; eassumption].
 Qed.
 
 Lemma is_ancestor_sound g : IsAncSound g (is_ancestor g).
 Proof.
   intros a b H. unfold is_ancestor, anc_set, anc_closure in H. apply cmem_In in H.
-  apply iter_expand_sound in H. destruct H as [y [[Hy|[]] Hay]]. subst. exact Hay.
+  apply close_fuel_sound in H. destruct H as [y [[Hy|[]] Hay]]. subst. exact Hay.
 Qed.
 
 Lemma seek_spec_sound g : SeekSound g (seek_spec g).
